@@ -3,3 +3,11 @@
 #[verifier::reject_recursive_types(K)]
 #[verifier::reject_recursive_types(V)]
 pub struct HashMap<K, V> { _k: core::marker::PhantomData<K>, _v: core::marker::PhantomData<V> }
+impl<K, V> HashMap<K, V> {
+    pub uninterp spec fn view(&self) -> Map<K, V>;
+    #[verifier::external_body]
+    pub fn new() -> (r: HashMap<K, V>) ensures r@ == Map::<K, V>::empty(), { unimplemented!() }
+    // std: insert overwrites; the previous value is returned (no caller in the units looks at it)
+    #[verifier::external_body]
+    pub fn insert(&mut self, k: K, v: V) -> (r: Option<V>) ensures final(self)@ == old(self)@.insert(k, v), { unimplemented!() }
+}
